@@ -56,4 +56,10 @@ theorem utxoV0_no_panic (C : Curve) (ser : List UInt8) (hlen : ser.length < 2 ^ 
   simp only []
   exact v0outs_no_panic C ser hlen _ _ _ _ (by omega)
 
+theorem v1row_no_panic (row : List UInt8) : readV1BlockRow row ≠ .panic := by
+  unfold readV1BlockRow
+  by_cases h : row.length < 92
+  · rw [if_pos h]; intro h'; cases h'
+  · rw [if_neg h, slice_some (by omega) (by omega)]; simp only []; intro h'; cases h'
+
 end BV.C15.Lemmas
